@@ -38,7 +38,7 @@ func scalarFaults(name string, env *univ.Env, srv *drive.Server, cr *childResult
 		arg      string
 		recovers int64
 		kind     string
-	}{{"uerr:1", 0, "unmarshal_error"}, {"upanic:1", 1, "unmarshal_panic"}, {"fine", 0, "control"}} {
+	}{{"uerr:1", 0, "unmarshal_error"}, {"ugqlerr:1", 0, "unmarshal_gqlerror"}, {"upanic:1", 1, "unmarshal_panic"}, {"fine", 0, "control"}} {
 		q := fmt.Sprintf(`{ scalar xboom(b: %q) an { vid } }`, c.arg)
 		before := srv.Recovers.Load()
 		run := &univ.Run{Plan: plan}
@@ -75,6 +75,9 @@ func scalarFaults(name string, env *univ.Env, srv *drive.Server, cr *childResult
 		}
 		if len(pl.Errors) != 1 || !strings.HasPrefix(pl.Errors[0].Path, "xboom") {
 			viol(fmt.Sprintf("expected exactly one error under path xboom (%s), got %v", c.kind, pl.Errors), string(pl.Raw))
+		} else if c.kind != "unmarshal_panic" && pl.Errors[0].Path != "xboom.b" {
+			// an error RETURNED by the unmarshaler of argument b is reported at the argument
+			viol(fmt.Sprintf("the error of argument b's unmarshaler (%s) is reported at path %q, not at the argument (xboom.b)", c.kind, pl.Errors[0].Path), string(pl.Raw))
 		}
 		if n := srv.Recovers.Load() - before; n != c.recovers {
 			viol(fmt.Sprintf("recover hook invoked %d times, expected %d (%s)", n, c.recovers, c.kind), string(pl.Raw))
